@@ -13,7 +13,7 @@
 (* they leave on the stream.                                               *)
 (*                                                                         *)
 (* Programs are the statement trees of IprPrinterMC over the leaves        *)
-(* "expr" (1;), "break", "return" (return 0;) and "decl" (a variable       *)
+(* "expr" (1\02;), "break", "return" (return 0;) and "decl" (a variable       *)
 (* v<n> whose type depends on n mod 4, as harness/printer.cxx builds it).  *)
 (* Names are numbered in construction order, which differs from printing   *)
 (* order for labels, for-in variables and handler parameters.              *)
@@ -85,7 +85,7 @@ Handlers(st, hs, i, c) ==
 Opening(st, kw) == Tok(Cond(Tok(Tok(Idn(st, kw), " "), "(")), ")")
 
 Visit(st, t, c) ==
-   CASE t[1] = "expr" -> NeedNl(Tok(Raw(st, "1"), ";"))
+   CASE t[1] = "expr" -> NeedNl(Tok(Raw(st, "1\\02"), ";"))           \* the literal 1<U+0002>, its second code unit escaped
      [] t[1] = "break" -> NeedNl(Tok(Idn(st, "break"), ";"))
      [] t[1] = "return" -> NeedNl(Tok(Raw(Tok(Idn(st, "return"), " "), "0"), ";"))
      [] t[1] = "decl" -> Tok(VarDecl(st, c + 1), ";")                       \* a declaration statement does not ask for a newline
